@@ -109,8 +109,8 @@ REGISTRY: dict[str, dict] = {
                      "runtime behaviour the model cannot exhibit (claimed partial)"],
     ),
     "C18": dict(
-        modules=["C18", "C18Full", "C18Bytes", "C03", "Translated", "TranslatedEnc"],
-        theorems=[T + "Translated.start_row_eq", T + "Translated.end_row_eq", T + "Translated.insert_eq", T + "Translated.make_last_to_evict_eq", T + "Translated.entry_index_eq", T + "C18_triples", T + "C18_quads", T + "C18_graphs", T + "C18_prefix_on_error",
+        modules=["C18", "C18Full", "C18Bytes", "C03", "Translated", "TranslatedEnc", "TranslatedStmt"],
+        theorems=[T + "Translated.encode_triple_eq", T + "Translated.encode_quad_eq", T + "Translated.encode_spo_exec", T + "Translated.modelEnc_like", T + "Translated.start_row_eq", T + "Translated.end_row_eq", T + "Translated.insert_eq", T + "Translated.make_last_to_evict_eq", T + "Translated.entry_index_eq", T + "C18_triples", T + "C18_quads", T + "C18_graphs", T + "C18_prefix_on_error",
                   T + "C18_triples_bytes", T + "C18_quads_bytes", T + "C18_graphs_bytes",
                   T + "C18_regression_prefix", T + "C18_regression_datatype", T + "C18_regression_name", T + "C18_regression_fits",
                   T + "C03_triples", T + "C03_quads", T + "C03_graphs"],
@@ -120,8 +120,8 @@ REGISTRY: dict[str, dict] = {
              "xsd:string literals. Non-trivial = the statement overflows a table.",
     ),
     "C20": dict(
-        modules=["C18", "C20Full", "C20Graph", "C14Full", "TranslatedEnc", "Translated"],
-        theorems=[T + "Translated.start_row_eq", T + "Translated.end_row_eq", T + "Translated.make_last_to_evict_eq", T + "Translated.insert_eq", T + "C20_triples", T + "C20_quads", T + "C20_graphs", T + "C20_refuses_after_dirty_rejection", T + "broken_refuses", T + "idle_irrelevant",
+        modules=["C18", "C20Full", "C20Graph", "C14Full", "TranslatedEnc", "Translated", "TranslatedStmt"],
+        theorems=[T + "Translated.encode_triple_eq", T + "Translated.encode_quad_eq", T + "Translated.encode_spo_exec", T + "Translated.modelEnc_like", T + "Translated.start_row_eq", T + "Translated.end_row_eq", T + "Translated.make_last_to_evict_eq", T + "Translated.insert_eq", T + "C20_triples", T + "C20_quads", T + "C20_graphs", T + "C20_refuses_after_dirty_rejection", T + "broken_refuses", T + "idle_irrelevant",
                   T + "C20_regression_witness", T + "C20_rejection_leaves_flow_untouched", T + "C20_clean_rejection_leaves_no_trace",
                   T + "C20_prefix_valid", T + "C20_prefix_accepted"],
         rule="SERSTEP: Triple/Quad/GraphStream driven statement by statement by a catch-and-continue loop, each statement made "
@@ -179,8 +179,8 @@ REGISTRY: dict[str, dict] = {
              "sizing predicate is cross-checked against the Lean predicate stmtFits. Non-trivial = >= 2 statements.",
     ),
     "C19": dict(
-        modules=["C19", "C03", "TranslatedEnc"],
-        theorems=[T + "Translated.encode_iri_indices_eq", T + "Translated.encode_literal_eq", T + "Translated.datatype_term_index_exec", T + "Translated.entry_index_exec", T + "Translated.name_term_index_exec", T + "Translated.prefix_term_index_exec", T + "C19_triples", T + "C19_quads", T + "C19_graphs", T + "C19_each_name_once", T + "C03_triples"],
+        modules=["C19", "C03", "TranslatedEnc", "TranslatedStmt"],
+        theorems=[T + "Translated.encode_triple_eq", T + "Translated.encode_quad_eq", T + "Translated.encode_spo_exec", T + "Translated.modelEnc_like", T + "Translated.encode_iri_indices_eq", T + "Translated.encode_literal_eq", T + "Translated.datatype_term_index_exec", T + "Translated.entry_index_exec", T + "Translated.name_term_index_exec", T + "Translated.prefix_term_index_exec", T + "C19_triples", T + "C19_quads", T + "C19_graphs", T + "C19_each_name_once", T + "C03_triples"],
         rule="SPEC audit on the REAL bytes of generic serializer cases (3 classes, all entry points, namespace declarations, "
              "presets down to 8/0/0 and 8/1/1, frame sizes 1..250): the Lean referee's counters redundant-entry, missed-repeat, "
              "missed-zero (and split-graph for GraphStream) must all be 0. Inputs with xsd:string-typed literals are left out "
